@@ -103,6 +103,10 @@ def write_cfg(path, spec="Spec", constants=None, invariants=(), properties=(), c
     open(path, "w").write("\n".join(lines) + "\n")
 
 
+def unescape_tlc(s):
+    return s.replace('\\"', '"').replace("\\\\", "\\")
+
+
 TLC_STATS = re.compile(r"(\d+) states generated, (\d+) distinct states found, (\d+) states left on queue")
 
 
@@ -130,6 +134,12 @@ def parse_tlc_log(text):
     elif "Error:" in text or "error" in text.lower():
         i = text.find("Error:")
         info["error"] = text[i:i + 3000] if i >= 0 else text[-3000:]
+    sm = re.search(r"The number of states generated: (\d+)", text)
+    if sm and info["states_generated"] is None:
+        info["states_generated"] = int(sm.group(1))
+        info["distinct"] = int(sm.group(1))
+        info["simulation"] = True
+        info["ok"] = "Error:" not in text
     im = re.search(r"Finished computing initial states: (\d+) distinct state", text)
     info["initial"] = int(im.group(1)) if im else 1
     dm = re.search(r"The depth of the complete state graph search is (\d+)", text)
@@ -140,7 +150,7 @@ def parse_tlc_log(text):
 
 def run_model(name, module, constants, invariants, binp=None, workers=8, timeout=3600, properties=(),
               constraint=None, view=None, replay=True, expect_cases=True, simulate=None, env_extra=None,
-              xmx="8g", spec="Spec"):
+              xmx="8g", spec="Spec", extra_args=()):
     """Run one TLC model; pipe its CASE lines into the harness.  Returns a result dict."""
     d = fresh_dir(name)
     cfg = os.path.join(d, module + ".cfg")
@@ -150,6 +160,7 @@ def run_model(name, module, constants, invariants, binp=None, workers=8, timeout
                                              "-noGenerateSpecTE", "-config", module + ".cfg"]
     if simulate:
         tlc += ["-simulate", simulate]
+    tlc += list(extra_args)
     tlc += [module + ".tla"]
     dis = os.path.join(d, "dis.ndjson")
     tlclog = os.path.join(d, "tlc.log")
@@ -219,6 +230,27 @@ def run_model(name, module, constants, invariants, binp=None, workers=8, timeout
     return res
 
 
+def collect_cases(name, module, constants, invariants, workers=6, timeout=1800):
+    """Run a model and return (tlc info, list of case dicts) without replaying them."""
+    d = fresh_dir(name)
+    write_cfg(os.path.join(d, module + ".cfg"), constants=constants, invariants=invariants)
+    tlc = java_cmd(xmx="6g", xss="256m") + ["-workers", str(workers), "-metadir", os.path.join(d, "states"),
+                                             "-noGenerateSpecTE", "-config", module + ".cfg", module + ".tla"]
+    p = subprocess.run(["timeout", str(timeout)] + tlc, cwd=d, stdout=subprocess.PIPE, stderr=subprocess.STDOUT)
+    text = p.stdout.decode(errors="replace")
+    shutil.rmtree(os.path.join(d, "states"), ignore_errors=True)
+    cases, rest = [], []
+    for line in text.splitlines():
+        if line.startswith('"CASE '):
+            cases.append(json.loads(unescape_tlc(line[6:-1])))
+        else:
+            rest.append(line)
+    info = parse_tlc_log("\n".join(rest))
+    if not info["ok"]:
+        raise ToolError("TLC did not complete cleanly on %s:\n%s" % (name, (info["error"] or text[-2000:])))
+    return info, cases
+
+
 # ----------------------------------------------------------------------------------------------
 # trace validation (impl -> spec)
 # ----------------------------------------------------------------------------------------------
@@ -236,17 +268,15 @@ def run_driver(binp, driver, seed, n, out, extra=()):
 MISMATCH = re.compile(r'^"MISMATCH (.*)"$')
 
 
-def unescape_tlc(s):
-    return s.replace('\\"', '"').replace("\\\\", "\\")
-
-
-def validate_trace(name, trace_file, module="Trace", timeout=1800, constants=None):
+def validate_trace(name, trace_file, module="Trace", timeout=1800, constants=None, env_extra=None):
     """TLC validates one ndjson trace against Trace.tla.  Returns (events, mismatches[list of dict])."""
     d = fresh_dir(name)
     cfg = os.path.join(d, module + ".cfg")
     write_cfg(cfg, spec="TraceSpec", constants=constants, postcondition="TraceAccepted")
     env = dict(os.environ)
     env["TRACE"] = trace_file
+    if env_extra:
+        env.update(env_extra)
     cmd = ["timeout", str(timeout)] + java_cmd(xmx="3g", xss="1g", deque=True) + [
         "-workers", "1", "-metadir", os.path.join(d, "states"), "-noGenerateSpecTE", "-config", module + ".cfg", module + ".tla"]
     t0 = time.time()
